@@ -208,6 +208,7 @@ struct Options {
     unsigned max_samples = 24;
     int max_preempt = 2;
     std::string concrete_file;  // run with concrete inputs from file
+    std::string sched;          // schedule choices to follow in concrete mode
     bool verbose = false;
     bool trace_calls = false;
     uint64_t max_paths = 0;
@@ -254,6 +255,7 @@ struct Engine {
     std::map<std::string, int64_t> concrete_inputs;
     bool concrete_mode = false;
     bool stop_all = false;
+    size_t sched_pos = 0;
     std::map<std::string, uint64_t> unsat_sites;
     bool init_phase = false;
     uint64_t init_steps = 0;
@@ -1236,6 +1238,15 @@ struct Engine {
     // Fork over n alternatives at a point where S is consistent (end of an instruction):
     // alternative 0 continues in S, alternatives 1..n-1 are queued.
     void fork_alternatives(State &S, int n, const std::function<void(State &, int)> &apply) {
+        if (n > 1 && concrete_mode) {
+            // schedule replay: follow the recorded choice letters
+            int pick = 0;
+            while (sched_pos < opt.sched.size() && (opt.sched[sched_pos] == '0' || opt.sched[sched_pos] == '1')) sched_pos++;
+            if (sched_pos < opt.sched.size()) pick = opt.sched[sched_pos++] - 'a';
+            if (pick < 0 || pick >= n) pick = 0;
+            apply(S, pick);
+            return;
+        }
         if (n > 1 && !concrete_mode) {
             for (int i = n - 1; i >= 1; i--) {
                 forks++;
